@@ -52,6 +52,13 @@ def grammar_cases(rng: random.Random) -> List[Dict[str, Any]]:
     for bad in ('`', '!', '\\', '\x01', 'é', '€', "'ab'", "'\\q'", '"abc', '0x', '0b2', '1e5e', '@@'):
         prog = pre + f';{bad}\n'
         add('lexing', prog, [line_of(pre)] if bad not in ('0x', '0b2', '1e5e', '@@') else [])
+    # characters that are white space to Python's str methods / regexes but not to the language (space and tab only), and
+    # other invisible ones: at the start, in the middle and at the end of a statement
+    for bad in rng.sample(['\x0b', '\x0c', '\x1c', '\x1d', '\x1e', '\x1f', '\x85', '\xa0', '\u2028', '\u2029', '\u3000', '\u200b',
+                           '\ufeff', '\x7f', '\x00', '\x1b'], 5):
+        where = rng.randrange(3)
+        prog = pre + (f'{bad};1\n' if where == 0 else f';1{bad}+2\n' if where == 1 else f';1 {bad}\n')
+        add('lexing', prog, [line_of(pre)])
     # syntax
     for bad in (';;', 'def m {', '}', 'a b c :', 'wflip 1', 'wflip 1,', 'rep(3) m', 'rep(3, i)', 'ns {\n}', 'def a.b {\n}',
                 '1 < 2 < 3;', 'pad', '(1;', '1);', ';1 +', '; * 2', 'x = ', '= 5', 'def m a a {\n;\n}', f'{lbl}: {lbl}2: ;',
@@ -126,6 +133,28 @@ def grammar_cases(rng: random.Random) -> List[Dict[str, Any]]:
     # (one op per level: where the levels allowed do not fit the address space, "not enough space" is the earlier, equally true, diagnosis)
     add('recursion', f'def {name} x {{\n  ;x\n  {name} x+1\n}}\n' + pre + f'{name} 0\n',
         ['recursi', name] + (['space'] if depth * dw >= (1 << w) - 8 * dw else []), max_recursion_depth=depth)
+    # the depth limit reached by nesting that is NOT a recursion: a chain of distinct macros, one name with growing arity
+    chain = rng.choice([12, 60, 130])
+    text = ''.join(f'def c{i}_{lbl} {{\n  c{i + 1}_{lbl}\n}}\n' for i in range(chain)) + f'def c{chain}_{lbl} {{\n  ;\n}}\n'
+    add('recursion', text + pre + f'c0_{lbl}\n', ['depth', 'recursi', f'_{lbl}'], max_recursion_depth=rng.choice([5, chain // 2, chain - 1]))
+    arity = rng.choice([8, 20])
+    text = ''.join(f'def g_{lbl} {", ".join(f"p{k}" for k in range(i))} {{\n  g_{lbl} {", ".join(["1"] * (i + 1))}\n}}\n' for i in range(arity))
+    text += f'def g_{lbl} {", ".join(f"p{k}" for k in range(arity))} {{\n  ;\n}}\n'
+    add('recursion', text + pre + f'g_{lbl}\n', ['depth', 'recursi', f'g_{lbl}'], max_recursion_depth=rng.choice([3, arity // 2, arity - 1]))
+    # constants of thousands of digits: as literals, and inside statements that fail for another reason (their message shows them)
+    nines = '9' * rng.choice([4301, 5000, 9000])
+    huge = rng.choice([nines, '(1<<20000)', '(0-(1<<15000))', '0x' + 'f' * 5000])
+    for text, mention in ((f';{nines}\n', []), (f'kx_{lbl} = {nines}\n;kx_{lbl}\n', []), (f';never_declared_{lbl} + {huge}\n', [f'never_declared_{lbl}']),
+                          (f';1/0 + {huge}\n', ['/']), (f'def hm_{lbl} a {{\n;a/0\n}}\nhm_{lbl} {huge}\n', ['/', f'hm_{lbl}']),
+                          (f'segment {huge}\n;\n', ['segment', 'space']), (f'reserve {huge}\n', ['reserve', 'space', 'memory']),
+                          (f'wflip {huge}, 1\n', []), (f'wflip 0, {huge}\n', []), (f'lz_{lbl}:\n;lz_{lbl} + {huge}\n', []),
+                          (f'def hm_{lbl} a {{\n;a\n}}\nhm_{lbl} {huge}, {huge}\n', [f'hm_{lbl}'])):
+        add('huge-constant', pre + text, mention)
+    # a user label spelled like one the assembler declares for itself
+    k = rng.choice([0, 1])
+    seg1, seg2 = min(dw * 64, (1 << w) // 8), min(dw * 128, (1 << w) // 4)
+    add('internal-name', pre + 'ns _ {\n' + f'segment {seg1}\n;\n' * k + f'segment {seg2}\nwflip_area_start_{k if rng.random() < 0.7 else 0}:\n;\n}}\n',
+        ['wflip_area_start', 'twice'])
     deep = rng.choice([300, 1200, 3000])
     add('deep-expression', f'lz:\n' + pre + ';' + 'lz+1+' * deep + '1\n', [])
     add('deep-expression', pre + ';' + '(' * deep + '1' + ')' * deep + '\n', [])
@@ -196,7 +225,11 @@ MACRO_SNIPPETS = [
 
 
 # ------------------------------------------------------------------------------ running one case
+_FIRED: List[str] = []
+
+
 def _alarm(signum, frame):  # type: ignore[no-untyped-def]
+    _FIRED.append('cpu' if signum == signal.SIGPROF else 'wall')
     raise KeyboardInterrupt('fjverif watchdog')
 
 
@@ -207,6 +240,7 @@ class Runner:
         self.hashes: List[str] = []
         self.journal = journal
         self.dir = engines.tmpdir()
+        self.hung_classes: set = set()
 
     def count(self, key: str, n: int = 1) -> None:
         self.counters[key] = self.counters.get(key, 0) + n
@@ -246,8 +280,16 @@ class Runner:
         kwargs: Dict[str, Any] = {}
         if case.get('max_recursion_depth'):
             kwargs['max_recursion_depth'] = case['max_recursion_depth']
+        if cls in self.hung_classes:
+            self.count('cases_skipped_after_a_hang_of_their_class')
+            return 'skipped'
+        # two watchdogs: CPU time consumed by this process (a verdict for tiny sources: machine load cannot cause it) and a much
+        # longer wall-clock one (never a verdict)
+        del _FIRED[:]
         old = signal.signal(signal.SIGALRM, _alarm)
-        signal.setitimer(signal.ITIMER_REAL, watchdog)
+        old_prof = signal.signal(signal.SIGPROF, _alarm)
+        signal.setitimer(signal.ITIMER_REAL, watchdog * 6)
+        signal.setitimer(signal.ITIMER_PROF, watchdog)
         import sys
 
         old_limit = sys.getrecursionlimit()
@@ -267,8 +309,10 @@ class Runner:
             exc = e
             outcome = 'raw'
         finally:
+            signal.setitimer(signal.ITIMER_PROF, 0)
             signal.setitimer(signal.ITIMER_REAL, 0)
             signal.signal(signal.SIGALRM, old)
+            signal.signal(signal.SIGPROF, old_prof)
             sys.setrecursionlimit(max(old_limit, 1000))
         self.count('monitor_evaluations')
         self.count(f'outcome/{outcome}')
@@ -281,6 +325,12 @@ class Runner:
             self.count('timeouts_on_size_amplifying_mutants')
         elif outcome == 'catch-all' and amplifying and cls.startswith(('mutation/', 'stl/')) and isinstance(exc.__cause__ if exc else None, MemoryError):
             self.count('memory_exhaustion_on_size_amplifying_mutants')
+        elif (outcome == 'timeout' and _FIRED[:1] == ['cpu'] and not amplifying and len(text_probe) < 20000
+              and not cls.startswith(('mutation/', 'stl/')) and cls != 'arithmetic-blowup'):
+            # "never hangs": a source of a few lines, without any construct that can ask for a large layout, kept assemble() busy
+            # for `watchdog` seconds of CPU time (ordinary cases of these classes take milliseconds)
+            self.hung_classes.add(cls)
+            self.bad(f'hang/{cls}', f'{cls}: assemble() of a {len(text_probe)}-character source did not return within {watchdog:.0f} s of CPU time', case)
         elif outcome == 'timeout':
             self.count('watchdog_timeouts')
             self.counters.setdefault('watchdog_timeout_classes', [])
